@@ -115,6 +115,13 @@ func evTimestamps(r *rand.Rand, n int, size, moo int64, pattern string) []int64 
 	start += 4 * (moo + size) // room for events earlier than the first one
 	t := start
 	step := func() int64 {
+		if size >= 5000 && r.Intn(40) == 0 {
+			// the source was silent for more than a day of event time (timestamps stay far in the past).
+			// Only with windows of 5 s and more: the engine walks through the empty windows one by one
+			// (about a second per 600 000 windows under the race detector), which is slow but not wrong,
+			// and the harness's bounded wait must not mistake that for a lost result
+			return int64(25+r.Intn(30))*3600*1000 + int64(r.Intn(int(size)))
+		}
 		switch r.Intn(6) {
 		case 0:
 			return 0 // duplicate timestamp
